@@ -59,6 +59,8 @@ macro_rules! poll_flush {
             SubstreamType::Quic(substream) => Pin::new(substream).poll_flush($cx),
             #[cfg(feature = "webrtc")]
             SubstreamType::WebRtc(substream) => Pin::new(substream).poll_flush($cx),
+            #[cfg(feature = "verif")]
+            SubstreamType::Verif(substream) => Pin::new(substream).poll_flush($cx),
             #[cfg(test)]
             SubstreamType::Mock(_) => unreachable!(),
         }
@@ -75,6 +77,8 @@ macro_rules! poll_write {
             SubstreamType::Quic(substream) => Pin::new(substream).poll_write($cx, $frame),
             #[cfg(feature = "webrtc")]
             SubstreamType::WebRtc(substream) => Pin::new(substream).poll_write($cx, $frame),
+            #[cfg(feature = "verif")]
+            SubstreamType::Verif(substream) => Pin::new(substream).poll_write($cx, $frame),
             #[cfg(test)]
             SubstreamType::Mock(_) => unreachable!(),
         }
@@ -91,6 +95,8 @@ macro_rules! poll_read {
             SubstreamType::Quic(substream) => Pin::new(substream).poll_read($cx, $buffer),
             #[cfg(feature = "webrtc")]
             SubstreamType::WebRtc(substream) => Pin::new(substream).poll_read($cx, $buffer),
+            #[cfg(feature = "verif")]
+            SubstreamType::Verif(substream) => Pin::new(substream).poll_read($cx, $buffer),
             #[cfg(test)]
             SubstreamType::Mock(_) => unreachable!(),
         }
@@ -107,6 +113,8 @@ macro_rules! poll_shutdown {
             SubstreamType::Quic(substream) => Pin::new(substream).poll_shutdown($cx),
             #[cfg(feature = "webrtc")]
             SubstreamType::WebRtc(substream) => Pin::new(substream).poll_shutdown($cx),
+            #[cfg(feature = "verif")]
+            SubstreamType::Verif(substream) => Pin::new(substream).poll_shutdown($cx),
             #[cfg(test)]
             SubstreamType::Mock(substream) => {
                 let _ = Pin::new(substream).poll_close($cx);
@@ -162,6 +170,13 @@ macro_rules! check_size {
     }};
 }
 
+/// Byte carrier accepted by [`Substream::new_verif`] (verification hook).
+#[cfg(feature = "verif")]
+pub trait VerifIo: AsyncRead + AsyncWrite + Unpin + Send {}
+
+#[cfg(feature = "verif")]
+impl<T: AsyncRead + AsyncWrite + Unpin + Send> VerifIo for T {}
+
 /// Substream type.
 enum SubstreamType {
     Tcp(tcp::Substream),
@@ -171,6 +186,8 @@ enum SubstreamType {
     Quic(quic::Substream),
     #[cfg(feature = "webrtc")]
     WebRtc(webrtc::Substream),
+    #[cfg(feature = "verif")]
+    Verif(Box<dyn VerifIo>),
     #[cfg(test)]
     Mock(Box<dyn crate::mock::substream::Substream>),
 }
@@ -185,6 +202,8 @@ impl fmt::Debug for SubstreamType {
             Self::Quic(_) => write!(f, "Quic"),
             #[cfg(feature = "webrtc")]
             Self::WebRtc(_) => write!(f, "WebRtc"),
+            #[cfg(feature = "verif")]
+            Self::Verif(_) => write!(f, "Verif"),
             #[cfg(test)]
             Self::Mock(_) => write!(f, "Mock"),
         }
@@ -335,6 +354,40 @@ impl Substream {
         )
     }
 
+    /// Create new [`Substream`] over an arbitrary byte carrier (verification hook).
+    #[cfg(feature = "verif")]
+    pub fn new_verif(
+        peer: PeerId,
+        substream_id: SubstreamId,
+        substream: Box<dyn VerifIo>,
+        codec: ProtocolCodec,
+    ) -> Self {
+        Self::new(peer, substream_id, SubstreamType::Verif(substream), codec)
+    }
+
+    /// Framing state (verification hook, read-only): `(pending_out_bytes,
+    /// lengths of pending_out_frames, length of pending_out_frame, read_buffer.len(), offset,
+    /// current_frame_size, pending_frames.len())`.
+    #[cfg(feature = "verif")]
+    #[allow(clippy::type_complexity)]
+    pub fn verif_state(
+        &self,
+    ) -> (usize, Vec<usize>, Option<usize>, usize, usize, Option<usize>, usize) {
+        (
+            self.pending_out_bytes,
+            self.pending_out_frames.iter().map(|frame| frame.len()).collect(),
+            self.pending_out_frame.as_ref().map(|frame| frame.len()),
+            self.read_buffer.len(),
+            self.offset,
+            self.current_frame_size,
+            self.pending_frames.len(),
+        )
+    }
+
+    /// Backpressure boundary of the `Sink` implementation (verification hook).
+    #[cfg(feature = "verif")]
+    pub const VERIF_BACKPRESSURE_BOUNDARY: usize = BACKPRESSURE_BOUNDARY;
+
     /// Close the substream.
     pub async fn close(self) {
         let _ = match self.substream {
@@ -345,6 +398,8 @@ impl Substream {
             SubstreamType::Quic(mut substream) => substream.shutdown().await,
             #[cfg(feature = "webrtc")]
             SubstreamType::WebRtc(mut substream) => substream.shutdown().await,
+            #[cfg(feature = "verif")]
+            SubstreamType::Verif(mut substream) => substream.shutdown().await,
             #[cfg(test)]
             SubstreamType::Mock(mut substream) => {
                 let _ = futures::SinkExt::close(&mut substream).await;
@@ -421,6 +476,14 @@ impl Substream {
             SubstreamType::Mock(ref mut substream) =>
                 futures::SinkExt::send(substream, bytes).await,
             SubstreamType::Tcp(ref mut substream) => match self.codec {
+                ProtocolCodec::Unspecified => panic!("codec is unspecified"),
+                ProtocolCodec::Identity(payload_size) =>
+                    Self::send_identity_payload(substream, payload_size, bytes).await,
+                ProtocolCodec::UnsignedVarint(max_size) =>
+                    Self::send_unsigned_varint_payload(substream, bytes, max_size).await,
+            },
+            #[cfg(feature = "verif")]
+            SubstreamType::Verif(ref mut substream) => match self.codec {
                 ProtocolCodec::Unspecified => panic!("codec is unspecified"),
                 ProtocolCodec::Identity(payload_size) =>
                     Self::send_identity_payload(substream, payload_size, bytes).await,
